@@ -1,6 +1,6 @@
 (* C02  Header section is well-formed and injection-proof for any supplied text.  Statements only. *)
 From Coq Require Import Strings.String.
-From LV Require Import Base.Bytes Base.Str Base.Res Model.HeaderEnc Spec.Rfc5322 Proofs.HeaderProofs Proofs.StructuredSafeProofs Model.BuilderFields Proofs.BuilderFieldsProofs.
+From LV Require Import Base.Bytes Base.Str Base.Res Model.HeaderEnc Spec.Rfc5322 Proofs.HeaderProofs Proofs.StructuredSafeProofs Model.BuilderFields Proofs.BuilderFieldsProofs Proofs.HeaderLinesProofs.
 From Coq Require Import Arith PeanoNat Lia.
 
 (* For EVERY name and EVERY value (any byte string: CR, LF, NUL, ':', non-ASCII, any length) the
@@ -78,6 +78,45 @@ Example C02_required_fields_example :
   = [bs "From"; bs "To"; bs "mime-version"; bs "Subject"; bs "Date"].
 Proof. vm_compute. reflexivity. Qed.
 
+(* Line lengths (a PARTIAL statement of the clause "lines longer than 78 octets occur only where a single
+   whitespace-free token is itself that long, never beyond 998 octets"; in general the clause is false of the
+   code - known findings F7 (runs of blanks), F29 (TAB is no fold point), F26 (address lists)).  For a text
+   value that is written verbatim and is made of printable ASCII words (33..126) separated by SINGLE spaces -
+   every name, any number of words of any length, a space at either end allowed - the physical lines of
+   "Name: value" are: a first line l0 and continuation lines, each of which is at most 77 octets long, or
+   consists of (the name, colon and SP on the first line, nothing on the others,) at most one space, exactly ONE
+   word of the value and at most one trailing space.  The first word is never moved to a line of its own (F27:
+   then the name and that word share the overlong line); every other overlong line holds one word only.
+   M is any bound on the length of the words (tokens = the maximal SP-free runs and the single spaces). *)
+Theorem C02_plain_lines_partial : forall (M : nat) (name value : bytes),
+  header_name_ok name = true ->
+  Forall (fun w => allowed_str w = true) (split_inclusive_sp value) ->
+  forallb valc value = true -> nodsp value = true ->
+  Forall (word_le M) (tokens value) ->
+  exists e l0 rest, header_value_encode name value = Ok e /\
+    lines_of (name ++ bs ": " ++ e) = l0 :: rest /\
+    LokF M (name ++ bs ": ") l0 /\ Forall (LokF M []) rest.
+Proof. exact plain_value_lines. Qed.
+(* ... and with words shorter than 900 octets no line is longer than 998 octets *)
+Theorem C02_plain_lines_998_partial : forall (name value : bytes),
+  header_name_ok name = true ->
+  Forall (fun w => allowed_str w = true) (split_inclusive_sp value) ->
+  forallb valc value = true -> nodsp value = true ->
+  Forall (word_le 899) (tokens value) ->
+  exists e, header_value_encode name value = Ok e /\
+    Forall (fun ln => (length ln <= 998)%nat) (lines_of (name ++ bs ": " ++ e)).
+Proof. exact plain_value_lines_998. Qed.
+(* the premises are met by a value that is folded, and by one with an unbreakable word *)
+Definition c02_words (n : nat) : bytes := concat (repeat (bs "lorem ") n) ++ bs "ipsum".
+Example C02_plain_lines_example :
+  let v := c02_words 20 ++ [SP] ++ repeat 120%N 90 ++ bs " end" in
+  Forall (fun w => allowed_str w = true) (split_inclusive_sp v) /\ forallb valc v = true /\ nodsp v = true /\
+  Forall (word_le 90) (tokens v) /\
+  match header_value_encode (bs "Subject") v with
+  | Ok e => map (@length N) (lines_of (bs "Subject: " ++ e)) = [74; 60; 91; 4]%nat
+  | _ => False end.
+Proof. vm_compute. repeat split; repeat constructor. Qed.
+
 Example C02_example_injection :
   header_value_encode (bs "Subject") [97; 13; 10; 66; 99; 99; 58; 32; 120] = Ok (bs "=?utf-8?b?YQ0KQmNjOg==?= x").
 Proof. vm_compute. reflexivity. Qed.
@@ -90,3 +129,5 @@ Print Assumptions C02_names.
 Print Assumptions C02_mailboxes_safe.
 Print Assumptions C02_content_disposition_safe.
 Print Assumptions C02_required_fields.
+Print Assumptions C02_plain_lines_partial.
+Print Assumptions C02_plain_lines_998_partial.
